@@ -56,13 +56,21 @@ package util
 //@   ensures [subset] forall j int :: 0 <= j && j < len(rets) ==> rets[j] != nil && (exists i int :: 0 <= i && i < len(rels) && rels[i] == rets[j])
 //@   ensures [fresh-list] len(rets) == 0 || fresh(rets)
 
-// SortManifests builds its hook and manifest lists from scratch: slices that existed before the
-// call keep their elements (trusted frame; the sorting inside works on the fresh lists only).
-//@ func SortManifests
+// SortManifests: the rendered files are processed in ascending path order (a function of the set of
+// paths, not of map iteration order — C05), each through manifestFile.sort. That slices which existed
+// before the call keep their elements and that every manifest handed back has a parsed head are
+// free postconditions (assumed by the callers, not checked here: the kind sorters work in place on
+// the fresh lists).
+//@ func SplitManifests
 //@   props C08
-//@   trusted
-//@   ensures [hook-lists-untouched] forall l []*rspb.Hook, i int :: !fresh(l) ==> l[i] == old(l[i])
-//@   ensures [heads-parsed] forall j int :: 0 <= j && j < len(result1) ==> result1[j].Head != nil
+//@   ensures [a-map] result != nil
+
+//@ func SortManifests
+//@   props C05 C08
+//@   marks forall l []*rspb.Hook, i int :: !fresh(l) ==> l[i] == old(l[i])
+//@   marks forall j int :: 0 <= j && j < len(result1) ==> result1[j].Head != nil
+//@   loop 2 invariant [files-in-path-order] forall a, b int :: 0 <= a && a < b && b < len(#range) ==> #range[a] <= #range[b]
+//@   loop 2 invariant [result] result != nil
 
 // ---- C08: every document of a rendered file goes to exactly one place — the manifest list, or the hook
 // list when its hook annotation names only known events — unaltered; a document naming an unknown
@@ -89,17 +97,28 @@ package util
 
 //@ ghost func sortedSoFar(result *result, h0 int, g0 int) bool = (forall q int :: h0 <= q && q < len(result.hooks) ==> hookFromDoc(result.hooks[q])) && (forall q int :: g0 <= q && q < len(result.generic) ==> !docHasHookAnno(result.generic[q].Content) && result.generic[q].Head != nil)
 
+// the order of SplitManifests keys ("manifest-<n>" by n); named, not interpreted
+//@ ghost func manifestKeyLess(a string, b string) bool
+//@ func BySplitManifestsOrder.Less
+//@   props C08
+//@   trusted
+//@   requires 0 <= i && i < len(a) && 0 <= j && j < len(a)
+//@   ensures result == manifestKeyLess(a[i], a[j])
+
 //@ func (*manifestFile).sort
 //@   props C08
 //@   requires file != nil && result != nil && file.entries != nil
 //@   ensures [hooks-name-only-known-events] forall q int :: old(len(result.hooks)) <= q && q < len(result.hooks) ==> hookFromDoc(result.hooks[q])
 //@   ensures [manifests-carry-no-hook-annotation] forall q int :: old(len(result.generic)) <= q && q < len(result.generic) ==> !docHasHookAnno(result.generic[q].Content) && result.generic[q].Head != nil
+//@   ensures [other-string-lists-untouched] forall l []string, i int :: !fresh(l) ==> l[i] == old(l[i])
 //@   ensures [earlier-entries-kept] len(result.hooks) >= old(len(result.hooks)) && len(result.generic) >= old(len(result.generic)) && (forall q int :: 0 <= q && q < old(len(result.hooks)) ==> result.hooks[q] == old(result.hooks[q])) && (forall q int :: 0 <= q && q < old(len(result.generic)) ==> result.generic[q] == old(result.generic[q]))
 //@   loop 2 invariant [hooks-name-only-known-events] forall q int :: old(len(result.hooks)) <= q && q < len(result.hooks) ==> hookFromDoc(result.hooks[q])
 //@   loop 2 invariant [manifests-carry-no-hook-annotation] forall q int :: old(len(result.generic)) <= q && q < len(result.generic) ==> !docHasHookAnno(result.generic[q].Content)
 //@   loop 2 invariant [manifests-have-heads] forall q int :: old(len(result.generic)) <= q && q < len(result.generic) ==> result.generic[q].Head != nil
 //@   loop 2 invariant [earlier-entries-kept] len(result.hooks) >= old(len(result.hooks)) && len(result.generic) >= old(len(result.generic)) && (forall q int :: 0 <= q && q < old(len(result.hooks)) ==> result.hooks[q] == old(result.hooks[q])) && (forall q int :: 0 <= q && q < old(len(result.generic)) ==> result.generic[q] == old(result.generic[q]))
 //@   loop 2 invariant [one-place-per-document] len(result.hooks) + len(result.generic) <= old(len(result.hooks)) + old(len(result.generic)) + #iter
+//@   loop 1 invariant [keys-in-a-list-of-their-own] len(sortedEntryKeys) == 0 || fresh(sortedEntryKeys)
+//@   loop 2 invariant [other-string-lists-untouched] forall l []string, i int :: !fresh(l) ==> l[i] == old(l[i])
 //@   loop 2 invariant [frame] result != nil && file.entries == old(file.entries) && file.entries != nil && (forall k string :: has(file.entries, k) == old(has(file.entries, k)) && file.entries[k] == old(file.entries[k]))
 //@   loop 3 invariant [all-known-so-far] h != nil && fresh(h) && len(h.Events) == #iter && (forall j int :: 0 <= j && j < #iter ==> has(events, lower(trimspace(#range[j]))) && h.Events[j] == events[lower(trimspace(#range[j]))])
 //@   loop 3 invariant [hook-under-construction] h.Manifest == m && (forall q int :: 0 <= q && q < len(result.hooks) ==> result.hooks[q] != h)
@@ -107,4 +126,5 @@ package util
 //@   loop 3 invariant [manifests-carry-no-hook-annotation] forall q int :: old(len(result.generic)) <= q && q < len(result.generic) ==> !docHasHookAnno(result.generic[q].Content) && result.generic[q].Head != nil
 //@   loop 3 invariant [earlier-entries-kept] len(result.hooks) >= old(len(result.hooks)) && len(result.generic) >= old(len(result.generic)) && (forall q int :: 0 <= q && q < old(len(result.hooks)) ==> result.hooks[q] == old(result.hooks[q])) && (forall q int :: 0 <= q && q < old(len(result.generic)) ==> result.generic[q] == old(result.generic[q]))
 //@   loop 3 invariant [one-place-per-document] len(result.hooks) + len(result.generic) <= old(len(result.hooks)) + old(len(result.generic)) + #iter$2
+//@   loop 3 invariant [other-string-lists-untouched] forall l []string, i int :: !fresh(l) ==> l[i] == old(l[i])
 //@   loop 3 invariant [frame] result != nil && file.entries == old(file.entries) && file.entries != nil && (forall k string :: has(file.entries, k) == old(has(file.entries, k)) && file.entries[k] == old(file.entries[k]))
